@@ -252,8 +252,59 @@ def conservation(op: int, a1: int, m1: int, a2: int, m2: int, crash: bool, t: in
             w.close()
 
 
+def dlq_race(k: int, other: int, a1: int) -> bool:
+    """
+    pre: 1 <= k <= 12 and 3 <= a1 <= 12
+    post: _
+    """
+    # Worker A sweeps an attempts-exhausted message to the DLQ; another worker's operation on the same
+    # message runs completely before A's k-th statement (every k): a second sweeper, a direct
+    # move_to_dlq, or the holder's ack.  The message must end up in exactly one place.
+    from harness.s2util import nest_at
+
+    with hx.Path("dlq_race") as P:
+        o = hx.pick(other, 3)
+        w = _world([_row(1, T0, False, 0, a1, 3, 0, "x")], qmax=3)
+        try:
+            symdb.CLOCK.now = T0 + 5000
+            qa, qb = w.queue, _second_queue(w, 3)
+            acked: list[str] = []
+
+            def run_b() -> None:
+                if o == 0:
+                    qb.check_and_move_expired()
+                elif o == 1:
+                    qb.move_to_dlq(1, "peer")
+                else:
+                    m = StartStage(execution_id="e1", stage_id="x1", created_at=_CREATED)
+                    m.message_id = "1"
+                    before = len(w.table("queue_messages"))
+                    qb.ack(m)
+                    if len(w.table("queue_messages")) < before:
+                        acked.append("x1")
+
+            st = nest_at(w.conn(), k, run_b, max_k=12)
+            qa.check_and_move_expired()
+            w.conn().pre_statement = None
+            if not st["done"]:
+                run_b()
+            with hx.native():
+                ident = lambda r: json.loads(r["payload"])["stage_id"]  # noqa: E731
+                inq = [ident(r) for r in w.table("queue_messages")]
+                indlq = [ident(r) for r in w.table("queue_messages_dlq")]
+                P.reached((o, st["at"], tuple(inq), tuple(indlq), tuple(acked)))
+                info = {"other_worker": ["second sweeper", "move_to_dlq", "ack by the holder"][o], "preempted_before_statement": st["at"], "queue": inq, "dlq": indlq, "acked": acked}
+                places = inq + indlq + acked
+                if sorted(places) != ["x1"]:
+                    return P.fail("C08/dlq_race/%s/%s" % (info["other_worker"].replace(" ", "_"), "lost" if not places else "in_%d_places" % len(places)), info)
+            return True
+        finally:
+            w.close()
+
+
 PLAN = [
     ("claim_nested", "quick", 280),
+    ("dlq_race", "quick", 280),
     ("claim_sequential", "quick", 280),
     ("ack_resched_extend", "quick", 280),
     ("conservation", "quick", 280),
@@ -263,7 +314,7 @@ META = {
     "functions": ["src/stabilize/queue/sqlite/queue.py:SqliteQueue.poll_one/ack/reschedule/extend_lock/push",
                   "src/stabilize/queue/sqlite/dlq.py:move_to_dlq/replay_dlq/check_and_move_expired", "src/stabilize/queue/sqlite/serialization.py:deserialize_message"],
     "bounds": ["1-2 queue rows + 1 DLQ row; deliver_at, locked_until, clock instants symbolic in a 200 s window at ms resolution (SQL compares at whole seconds); attempts 0..12, max_attempts 1..12, version 0..5 symbolic",
-               "two pollers: the nested interleaving (B between A's SELECT and UPDATE) and the sequential one with an arbitrary delay; crash = rollback at the operation's commit"],
+               "two pollers: the nested interleaving (B between A's SELECT and UPDATE) and the sequential one with an arbitrary delay; crash = rollback at the operation's commit; DLQ sweep raced by a second sweeper / move_to_dlq / the holder's ack before every statement of the sweep"],
     "stubs": ["SymDB instead of SQLite (validated differentially by vf/validate_symdb.py on every run)", "clock: datetime.now and SQL datetime('now') read one symbolic instant set by the harness",
               "ids: uuid4() replaced by a counter"],
     "assumptions": ["queue-level max_attempts equals the row's max_attempts in the claim lemmas (DESIGN O2)", "host time zone UTC"],
